@@ -92,16 +92,43 @@ def big_program(rng, pop):
     return prog, {'big-population', 'deep-recursion'}, []
 
 
+def same_numbers_program(rng, pop):
+    """The same numbers written to the colour registers under different unit
+    modes, with a `set` after each: what is sent is determined by the registers
+    *and* the mode at that moment (a conversion remembered from the previous
+    command must not be reused because the numbers look the same)."""
+    a, b, c = (rng.choice([0, 10, 25, 50, 50, 75, 100]) for _ in range(3))
+    k = rng.choice([1500, 2700, 4000, 9000])
+    hsb = [['setreg', 'hue', ['num', a]], ['setreg', 'saturation', ['num', b]],
+           ['setreg', 'brightness', ['num', c]]]
+    rgb = [['setreg', 'red', ['num', a]], ['setreg', 'green', ['num', b]],
+           ['setreg', 'blue', ['num', c]]]
+    send = [['action', 'set', [['all']]]]
+    prog = [['setreg', 'kelvin', ['num', k]]]
+    mode = 'logical'
+    for _ in range(rng.randint(2, 4)):
+        prog += (hsb if mode == 'logical' else rgb) + send
+        if rng.random() < 0.3:
+            prog += [['setreg', 'kelvin', ['num', rng.choice([2000, 6500])]]] \
+                + send
+        mode = 'rgb' if mode == 'logical' else 'logical'
+        prog += [['units', mode]]
+    prog += (hsb if mode == 'logical' else rgb) + send
+    return prog, {'same-numbers-other-units'}, []
+
+
 def run_shard(ctx):
     n = N[ctx.tier]
     for i in range(ctx.shard, n, ctx.nshards):
         big = i % 250 == 77
+        same = i % 40 == 13
         runner.VIA_FILE[0] = i % 6 == 3
         try:
             out = progcheck.one_case(
                 ctx, i, PROFILE, 'c01',
                 pop_fn=big_population if big else None,
-                prog_fn=big_program if big else None)
+                prog_fn=big_program if big else
+                same_numbers_program if same else None)
         finally:
             runner.VIA_FILE[0] = False
         if out is None:
